@@ -72,7 +72,7 @@ def genGs1 (seed n : Nat) : List String :=
     let sc := Spec.script y st
     let vars := k % 4 == 3
     let entry := if vars then "gs1vars" else "gs1"
-    let line := s!"g{seed}_{k} {entry} {port} {retries} {gsShowScript sc}"
+    let line := s!"ga{seed}_{k} {entry} {port} {retries} {gsShowScript sc}"
     let wf := if Spec.wf y st then "" else " NOTWF"
     let want := if vars then showRes showGs1Vars (.ok (Spec.expectedVars y st))
       else showRes showGs1Response (.ok (Spec.expected st))
